@@ -14,6 +14,8 @@ import (
 
 	clientv3 "go.etcd.io/etcd/client/v3"
 
+	"github.com/projecteru2/core/types"
+
 	"verif/internal/vt"
 	"verif/internal/world"
 )
@@ -29,6 +31,11 @@ type StatusCase struct {
 	Prior  world.DeploySpec `json:"prior"`  // a first deployment of the same app/entry (prior counts)
 	Deploy world.DeploySpec `json:"deploy"` // the observed deployment
 	Fault  *world.Fault     `json:"fault,omitempty"`
+	// CancelAt > 0: the caller's context is cancelled at the CancelAt-th observation
+	CancelAt int `json:"cancel_at,omitempty"`
+	// Sibling != "": another entrypoint of the same application whose name extends "web" is in the
+	// middle of a deployment on every node (processing marker of 3)
+	Sibling string `json:"sibling,omitempty"`
 }
 
 func genC13(t *rapid.T) StatusCase {
@@ -45,6 +52,12 @@ func genC13(t *rapid.T) StatusCase {
 			name += "@" + rapid.SampledFrom(c.Setup.Nodes).Draw(t, "faultNode").Name
 		}
 		c.Fault = &world.Fault{Name: name, Occ: rapid.IntRange(1, 4).Draw(t, "faultOcc")}
+	}
+	if vt.Chance(t, "cancel", 25) {
+		c.CancelAt = rapid.IntRange(1, 40).Draw(t, "cancelAt")
+	}
+	if vt.Chance(t, "sibling", 35) {
+		c.Sibling = rapid.SampledFrom([]string{"2", "-api", ".v2", "web"}).Draw(t, "sibling")
 	}
 	return c
 }
@@ -85,6 +98,18 @@ func processingKeys(w *world.World, redis bool) []string {
 	return keys
 }
 
+// ownMarkers drops the markers of the sibling entrypoint.
+func ownMarkers(keys []string) []string {
+	var out []string
+	for _, k := range keys {
+		if strings.Contains(k, "/sibling") {
+			continue
+		}
+		out = append(out, k)
+	}
+	return out
+}
+
 func runC13(x *vt.Ctx, c StatusCase) *vt.Finding {
 	w, err := buildWorld(c.Setup)
 	if err != nil {
@@ -104,6 +129,19 @@ func runC13(x *vt.Ctx, c StatusCase) *vt.Finding {
 		return vt.Failf("harness:list", "%v", err)
 	}
 
+	if c.Sibling != "" {
+		x.Label("sibling-entrypoint-deploying")
+		for _, n := range c.Setup.Nodes {
+			ctx, cancel := context.WithTimeout(context.Background(), 10*time.Second)
+			err := w.RawStore.CreateProcessing(ctx, &types.Processing{Appname: "a", Entryname: "web" + c.Sibling, Nodename: n.Name, Ident: "sibling"}, 3)
+			cancel()
+			if err != nil {
+				return vt.Failf("harness:sibling-marker", "%v", err)
+			}
+		}
+	}
+	reqCtx, reqCancel := context.WithTimeout(w.Ctx, 60*time.Second)
+	defer reqCancel()
 	var (
 		mu       sync.Mutex
 		obsCount int
@@ -140,7 +178,10 @@ func runC13(x *vt.Ctx, c StatusCase) *vt.Finding {
 			return
 		}
 		obsCount++
-		if len(processingKeys(w, c.Setup.Redis)) > 0 {
+		if c.CancelAt > 0 && obsCount == c.CancelAt {
+			reqCancel()
+		}
+		if len(ownMarkers(processingKeys(w, c.Setup.Redis))) > 0 {
 			withMark++
 		}
 		nodes := map[string]bool{}
@@ -159,7 +200,7 @@ func runC13(x *vt.Ctx, c StatusCase) *vt.Finding {
 			}
 		}
 	})
-	msgs, callErr, closed := w.Create(c.Deploy)
+	msgs, callErr, closed := w.CreateCtx(reqCtx, c.Deploy)
 	w.IC.SetObserver(nil)
 	w.IC.DisarmFault()
 	fk := "nofault"
@@ -206,13 +247,17 @@ func runC13(x *vt.Ctx, c StatusCase) *vt.Finding {
 			return vt.Failf("after:count!=recorded@"+backend+" fault="+fk, "node %s: deploy status %d, workloads recorded %d", n, status[n], k)
 		}
 	}
-	if keys := processingKeys(w, c.Setup.Redis); len(keys) > 0 {
+	if c.CancelAt > 0 && oc >= c.CancelAt {
+		x.Label("caller-cancelled-mid-deployment")
+		fk += ":caller-cancelled"
+	}
+	if keys := ownMarkers(processingKeys(w, c.Setup.Redis)); len(keys) > 0 {
 		return vt.Failf("after:marker-left@"+backend+" fault="+fk, "processing markers left after the deployment returned: %v\n%s", keys, histStr(w.IC.History()))
 	}
 	settle(w)
 	return nil
 }
 
-var propC13 = vt.Prop[StatusCase]{ID: "C13", Test: "TestC13", Gen: genC13, Run: runC13}
+var propC13 = vt.Prop[StatusCase]{ID: "C13", Test: "TestC13", Gen: genC13, Run: runC13, Retry: timeoutFinding}
 
 func TestC13(t *testing.T) { topT = t; propC13.Check(t) }
